@@ -13,7 +13,7 @@
 (* This module is pure (no variables); SearchTrace.tla evaluates Eval on   *)
 (* the corpora and queries that were really run through Reader.Search.     *)
 (***************************************************************************)
-EXTENDS Integers, Sequences, FiniteSets, TLC
+EXTENDS Integers, Sequences, FiniteSets, TLC, GeoTable
 
 Range(s) == {s[i] : i \in DOMAIN s}
 Has(r, k) == k \in DOMAIN r
@@ -125,6 +125,9 @@ Eval(C, q) ==
                  IN /\ y >= q.box[4] /\ y <= q.box[2]
                     /\ IF q.box[3] >= q.box[1] THEN x >= q.box[1] /\ x <= q.box[3]
                        ELSE x >= q.box[1] \/ x <= q.box[3]})
+    [] q.t = "geodist" -> \* great-circle distance from the centre (GeoTable: km on the mean sphere; the radii used
+                          \* keep 2.4% clear of every tabulated distance, so the earth model cannot decide membership)
+         Ids({d \in D : \E i \in DOMAIN Geo(d, q.f) : GeoKm(q.c, Geo(d, q.f)[i]) <= q.km})
     [] q.t = "bool" ->
          \* must: all; must-not: none; should: at least min (when there is no must
          \* clause at least one should clause has to match anyway); only must-not
